@@ -65,6 +65,195 @@ fn gen_chain(g: &mut G, first_path: &str) -> Graph {
     Graph { nodes }
 }
 
+/// A prepared request whose first `send()` followed a redirect and then failed on the later hop is sent
+/// again: the second send is the same request once more - it starts at the request's own URL, walks the same
+/// hops, and `PreparedRequest::url()` never moves.  (What the failed walk left behind in the request must not
+/// show.)
+fn resend_after_failed_walk_family(g: &mut G, ctx: &RunCtx) -> RunReport {
+    use crate::peers::{Act, Script};
+    use std::sync::atomic::{AtomicUsize, Ordering};
+    g.probe("family:prepared-request-sent-again-after-a-redirected-send-failed");
+    let status = *g.pick(&[301u16, 302, 303, 307, 308]);
+    let mode = g.below(8);
+    let method = *g.pick(&["GET", "POST", "PUT", "GET"]);
+    let body_len = *g.pick(&[0usize, 11, 9000, 70_000]);
+    // mode 7: the second hop's server resets the connection while the request is still being written (a body
+    // that is replayed on that hop: 307/308, tens of kilobytes)
+    let (status, body_len) = if mode == 7 { ([307u16, 308][status as usize % 2], 70_000 + body_len) } else { (status, body_len) };
+    struct ResetAfter {
+        got: usize,
+        done: bool,
+    }
+    impl attosim::Peer for ResetAfter {
+        fn on_bytes(&mut self, c: &mut dyn attosim::Ctl, data: &[u8]) {
+            self.got += data.len();
+            if !self.done && self.got >= 20_000 {
+                self.done = true;
+                c.rst_at(0);
+            }
+        }
+        fn as_any(&mut self) -> &mut dyn std::any::Any {
+            self
+        }
+    }
+    let a_ip: IpAddr = "10.0.0.1".parse().unwrap();
+    let b_ip: IpAddr = "10.0.0.2".parse().unwrap();
+    let sim = Sim::new(ctx.sim_config());
+    sim.add_host("a.test", vec![a_ip]);
+    sim.add_host("b.test", vec![b_ip]);
+    let seen = Arc::new(Mutex::new(Seen::default()));
+    {
+        let seen2 = seen.clone();
+        sim.add_listener(
+            a_ip,
+            80,
+            ConnectBehaviour::Accept { latency_ns: NS_PER_MS },
+            Some(Box::new(move |_i| {
+                Box::new(HttpPeer::new(
+                    Arc::new(move |_r, _c| {
+                        let mut s = Script::default();
+                        s.acts.push(Act::Send(format!("HTTP/1.1 {} Moved\r\nLocation: http://b.test/next?x=1\r\nContent-Length: 0\r\n\r\n", status).into_bytes()));
+                        s.acts.push(Act::Fin);
+                        s
+                    }),
+                    seen2.clone(),
+                ))
+            })),
+        );
+    }
+    {
+        let seen2 = seen.clone();
+        let nth = Arc::new(AtomicUsize::new(0));
+        sim.add_listener(
+            b_ip,
+            80,
+            ConnectBehaviour::Accept { latency_ns: NS_PER_MS },
+            Some(Box::new(move |_i| {
+                let k = nth.fetch_add(1, Ordering::Relaxed);
+                if k == 0 && mode == 7 {
+                    return Box::new(ResetAfter { got: 0, done: false });
+                }
+                Box::new(HttpPeer::new(
+                    Arc::new(move |_r, _c| {
+                        let mut s = Script::default();
+                        if k > 0 {
+                            s.acts.push(Act::Send(b"HTTP/1.1 200 OK\r\nContent-Length: 2\r\n\r\nok".to_vec()));
+                            s.acts.push(Act::Fin);
+                            return s;
+                        }
+                        // the first connection to the second hop fails, each time in another way
+                        match mode {
+                            0 => s.acts.push(Act::Rst),
+                            1 => {
+                                s.acts.push(Act::Send(b"HTP/1.1 two hundred\r\n\r\n".to_vec()));
+                                s.acts.push(Act::Fin);
+                            }
+                            2 => {
+                                s.acts.push(Act::Send(b"HTTP/1.1 302 Found\r\nContent-Length: 0\r\n\r\n".to_vec()));
+                                s.acts.push(Act::Fin);
+                            }
+                            3 => {
+                                s.acts.push(Act::Send(b"HTTP/1.1 307 Moved\r\nLocation: http://[::1\r\nContent-Length: 0\r\n\r\n".to_vec()));
+                                s.acts.push(Act::Fin);
+                            }
+                            4 => {
+                                // one redirect more than the caller allows
+                                s.acts.push(Act::Send(b"HTTP/1.1 307 Moved\r\nLocation: /third\r\nContent-Length: 0\r\n\r\n".to_vec()));
+                                s.acts.push(Act::Fin);
+                            }
+                            5 => s.acts.push(Act::Fin),
+                            _ => {
+                                s.acts.push(Act::Send(b"HTTP/1.1 200 OK\r\nContent-Length: 5".to_vec()));
+                                s.acts.push(Act::Rst);
+                            }
+                        }
+                        s
+                    }),
+                    seen2.clone(),
+                ))
+            })),
+        );
+    }
+    let out = sim.run(|| {
+        let rb = attohttpc::RequestBuilder::new(attohttpc::Method::from_bytes(method.as_bytes()).unwrap(), "http://a.test/start?k=v")
+            .max_redirections(if mode == 4 { 1 } else { 5 })
+            .proxy_settings(attohttpc::ProxySettings::builder().build())
+            .header("X-Trace", "t-1");
+        let mut prepared = rb.bytes(vec![b'b'; body_len]).prepare();
+        let mut res = Vec::new();
+        for _ in 0..2 {
+            let r = match prepared.send() {
+                Ok(r) => {
+                    let (st, u) = (r.status().as_u16(), r.url().to_string());
+                    Ok((st, u, r.text_utf8().unwrap_or_default()))
+                }
+                Err(e) => Err(err_kind(&e)),
+            };
+            res.push((r, prepared.url().to_string()));
+        }
+        res
+    });
+    let mut stats = Stats::default();
+    stats.absorb(&out.history);
+    let desc = format!("{} http://a.test/start?k=v -> {} -> http://b.test/next?x=1 whose first connection fails (mode {}), body {} octets", method, status, mode, body_len);
+    let verdict = match &out.result {
+        None => violation("hang", "run torn down"),
+        Some(Err(m)) => violation("panic", m.clone()),
+        Some(Ok(res)) => (|| {
+            let dialled: Vec<String> = out.history.conns.iter().map(|c| c.addr.ip().to_string()).collect();
+            let want = ["10.0.0.1", "10.0.0.2", "10.0.0.1", "10.0.0.2"];
+            if dialled != want {
+                return violation(
+                    "resend:walk-differs-from-the-first",
+                    format!("connections went to {:?}, expected {:?}: every send() of a prepared request starts at its own URL ({}; results {:?})", dialled, want, desc, res.iter().map(|r| &r.0).collect::<Vec<_>>()),
+                );
+            }
+            for (i, (_, u)) in res.iter().enumerate() {
+                if u != "http://a.test/start?k=v" {
+                    return violation("resend:prepared-url-moved", format!("after send #{} PreparedRequest::url() is {:?} ({})", i + 1, u, desc));
+                }
+            }
+            if res[0].0.is_ok() {
+                return violation("resend:failed-hop-succeeded", format!("the first send returned {:?} although its second hop failed ({})", res[0].0, desc));
+            }
+            match &res[1].0 {
+                Ok((200, u, b)) if u == "http://b.test/next?x=1" && b == "ok" => {}
+                other => return violation("resend:second-send", format!("the second send returned {:?}, expected 200 \"ok\" from http://b.test/next?x=1 ({})", other, desc)),
+            }
+            let seen = seen.lock().unwrap();
+            for (ci, want_host, want_target) in [(0usize, "a.test", "/start?k=v"), (2, "a.test", "/start?k=v"), (3, "b.test", "/next?x=1")] {
+                match seen.requests.iter().find(|(c, _)| *c == ci) {
+                    Some((_, Ok(r))) => {
+                        let host = r.header_str("host").unwrap_or_default();
+                        if host != want_host || r.target != want_target {
+                            return violation("resend:hop-names-wrong-resource", format!("connection {} carried {} {} with Host {:?}, expected {} at {} ({})", ci, r.method, r.target, host, want_target, want_host, desc));
+                        }
+                        if r.header_str("x-trace") != Some("t-1".to_string()) {
+                            return violation("resend:caller-header-lost", format!("connection {} lacks the caller's X-Trace field ({})", ci, desc));
+                        }
+                        if (ci == 0 || ci == 2) && r.method != method {
+                            return violation("resend:method-differs", format!("connection {} carried method {}, the request's is {} ({})", ci, r.method, method, desc));
+                        }
+                        if (ci == 0 || ci == 2) && r.body.len() != body_len {
+                            return violation("resend:body-differs", format!("connection {} carried {} body octets, the request has {} ({})", ci, r.body.len(), body_len, desc));
+                        }
+                    }
+                    other => return violation("resend:hop-malformed", format!("connection {}: {:?} ({})", ci, other.map(|x| x.1.as_ref().err()), desc)),
+                }
+            }
+            Verdict::Pass
+        })(),
+    };
+    RunReport {
+        verdict,
+        shape: format!("resend-after-failed-walk/{}/{}/mode{}/body{}", method, status, mode, body_len.min(3)),
+        nontrivial: true,
+        stats,
+        sched_tape: out.sched_tape,
+        describe: if ctx.describe { desc } else { String::new() },
+    }
+}
+
 pub fn scenario(g: &mut G, ctx: &RunCtx) -> RunReport {
     let mut plan: ReqPlan = reqgen::gen_request(g, if ctx.thorough { 100_000 } else { 20_000 });
     // the first URL's query is part of node 0's identity: keep the caller's params out of the way of routing
@@ -179,6 +368,10 @@ pub fn scenario(g: &mut G, ctx: &RunCtx) -> RunReport {
     let sends = if g.chance(1, 4) { 2usize } else { 1 };
     if sends == 2 {
         g.probe("prepared-request-sent-twice-through-the-chain");
+    }
+    // drawn last: recorded tapes keep their meaning
+    if g.chance(1, 10) {
+        return resend_after_failed_walk_family(g, ctx);
     }
     let url0 = gr.nodes[0].url.clone();
     let no_proxy2: Vec<String> = no_proxy.iter().map(|s| s.to_string()).collect();
